@@ -69,8 +69,10 @@ func grammarText(p *Program, r *Report) (string, token.Pos) {
 	return strings.ReplaceAll(text, "‵", "`"), pos
 }
 
-func ruleOpTables(p *Program, r *Report) {
-	r.Begin("R08a", "grammar tokens ⇔ operator tables: the finite language of every operator term of the compiled wbnf grammar is contained in the keys of the map the compiler indexes with it, unless the lookup tests presence (comma-ok); constant-key lookups name existing keys", 40)
+func ruleOpTables(p *Program, r *Report) { ruleOpTablesNamed(p, r, "R08a") }
+
+func ruleOpTablesNamed(p *Program, r *Report, ruleName string) {
+	r.Begin(ruleName, "grammar tokens ⇔ operator tables: the finite language of every operator term of the compiled wbnf grammar is contained in the keys of the map the compiler indexes with it, unless the lookup tests presence (comma-ok); constant-key lookups name existing keys", 40)
 	defer r.End()
 	pk := p.PkgSyntax("syntax")
 	grammar, gpos := grammarText(p, r)
